@@ -470,7 +470,25 @@ func genMsg6(r *Rng, depth int, loose bool) dhcpv6.DHCPv6 {
 		if code == 9 && depth <= 0 {
 			code = 14
 		}
-		m.Options.Options = append(m.Options.Options, genOpt6(r, code, min(depth, 2), loose))
+		o := genOpt6(r, code, min(depth, 2), loose)
+		// vendor options / vendor classes of ONE enterprise in several instances (a sender
+		// must not, a decoder keeps them as they come): half of the later instances take the
+		// enterprise number of an earlier one (seeded change C02-16: merged on decode)
+		if r.Bool() {
+			for _, prev := range m.Options.Options {
+				switch pv := prev.(type) {
+				case *dhcpv6.OptVendorOpts:
+					if ov, ok := o.(*dhcpv6.OptVendorOpts); ok {
+						ov.EnterpriseNumber = pv.EnterpriseNumber
+					}
+				case *dhcpv6.OptVendorClass:
+					if ov, ok := o.(*dhcpv6.OptVendorClass); ok {
+						ov.EnterpriseNumber = pv.EnterpriseNumber
+					}
+				}
+			}
+		}
+		m.Options.Options = append(m.Options.Options, o)
 	}
 	if r.Chance(1, 25) {
 		// a message well beyond one Ethernet frame (1500) and beyond 4096: an opaque option
@@ -478,6 +496,7 @@ func genMsg6(r *Rng, depth int, loose bool) dhcpv6.DHCPv6 {
 		// whatever buffer an encoder or decoder sizes by guess has to grow while it is in
 		// the middle of a container (seeded change C06-14)
 		big := &dhcpv6.OptionGeneric{OptionCode: 4243, OptionData: r.Bytes(r.Pick([]int{1400, 1490, 1500, 2000, 4090, 4096, 5000, 9000}))}
+
 		at := r.Intn(len(m.Options.Options) + 1)
 		os := append(dhcpv6.Options{}, m.Options.Options[:at]...)
 		os = append(os, big)
@@ -749,7 +768,35 @@ func genAddrPatched6(r *Rng) []byte {
 	return b
 }
 
+// genMaxLenOption6: a message holding an option whose length field is 65535 or 65534 -
+// the largest values it can express - laid by hand, with a small option in front of or
+// behind it (seeded change C06-16: an encoder guard written `>= 65535` dropping the
+// option on re-encoding).  Top level only: nested, it could not be framed.
+func genMaxLenOption6(r *Rng) []byte {
+	b := []byte{byte(r.Range(1, 11)), 9, 8, 7}
+	small := func() {
+		o := genOpt6(r, r.Pick([]int{8, 13, 18, 23, 6}), 0, false)
+		v := o.ToBytes()
+		b = append(b, byte(o.Code()>>8), byte(o.Code()), byte(len(v)>>8), byte(len(v)))
+		b = append(b, v...)
+	}
+	if r.Bool() {
+		small()
+	}
+	n := r.Pick([]int{65535, 65535, 65534})
+	code := r.Pick([]int{4243, 18, 59, 300})
+	b = append(b, byte(code>>8), byte(code), byte(n>>8), byte(n))
+	b = append(b, r.Bytes(n)...)
+	if r.Bool() {
+		small()
+	}
+	return b
+}
+
 func genWire6(r *Rng) ([]byte, string) {
+	if r.Chance(1, 150) {
+		return genMaxLenOption6(r), "max-length-option"
+	}
 	switch r.Intn(19) {
 	case 17:
 		return genAddrPatched6(r), "address-patched"
